@@ -7,6 +7,7 @@ import Mathlib.Tactic.Ring
 import Mathlib.Tactic.Linarith
 import Mathlib.Tactic.IntervalCases
 import Mathlib.Algebra.BigOperators.Group.List.Basic
+import Mathlib.Data.List.Nodup
 import LibfiveModel.Marching
 
 namespace Libfive.Marching
@@ -373,8 +374,33 @@ theorem vtx_inj (t : Tet) (h : t.distinct) : ∀ i j, i < 4 → j < 4 → t.vtx 
   intro i j hi hj
   interval_cases i <;> interval_cases j <;> simp [Tet.vtx] <;> intro h <;> simp_all
 
+/-- (T) no directed side is emitted twice by one tet, and all entries are tet vertices -/
+theorem tet_table_nodup : ∀ m, m < 16 → (dirEdges (localTris m)).Nodup := by decide
+
+theorem tet_table_edges_lt : ∀ m, m < 16 →
+    (dirEdges (localTris m)).all (fun e => decide (e.1.1 < 4) && decide (e.1.2 < 4) && decide (e.2.1 < 4) && decide (e.2.2 < 4)) = true := by
+  decide
+
 theorem maskOf_lt (b0 b1 b2 b3 : Bool) : maskOf b0 b1 b2 b3 < 16 := by
   cases b0 <;> cases b1 <;> cases b2 <;> cases b3 <;> decide
+
+/-- within one tet with four distinct vertices every directed side is emitted at most once -/
+theorem marchTet_edges_nodup (s : Vid → Bool) (t : Tet) (h : t.distinct) : (dirEdges (marchTet s t)).Nodup := by
+  unfold marchTet marchTetM
+  rw [dirEdges_map]
+  have hlt := tet_table_edges_lt (t.mask s) (maskOf_lt _ _ _ _)
+  rw [List.all_eq_true] at hlt
+  have inj := vtx_inj t h
+  apply List.Nodup.map_on _ (tet_table_nodup (t.mask s) (maskOf_lt _ _ _ _))
+  intro x hx y hy hxy
+  have bx := hlt x hx
+  have by_ := hlt y hy
+  simp only [Bool.and_eq_true, decide_eq_true_eq] at bx by_
+  obtain ⟨⟨⟨x1, x2⟩, x3⟩, x4⟩ := bx
+  obtain ⟨⟨⟨y1, y2⟩, y3⟩, y4⟩ := by_
+  simp only [mapEdge, mapSV, Prod.mk.injEq] at hxy
+  obtain ⟨⟨h1, h2⟩, h3, h4⟩ := hxy
+  exact Prod.ext (Prod.ext (inj _ _ x1 y1 h1) (inj _ _ x2 y2 h2)) (Prod.ext (inj _ _ x3 y3 h3) (inj _ _ x4 y4 h4))
 
 /-! ### dual contouring quad -/
 
